@@ -89,41 +89,31 @@ class API:
         seq = sym.as_seq(it)
         n = seq.length()
         ctx = cur()
-        # obligations inside the element expression are generated once, for a generic index
-        k = fresh("int", "k!comp")
-        saved = len(ctx.hyps)
-        ctx.solver.push()
-        mark = len(ctx.hyps)
-        ctx.assume(sand(0 <= k, k < n))
+        # the element expression is evaluated once, now (comprehensions are eager), for a generic index k;
+        # element q of the result is that value with k replaced by q.  Values created meanwhile are functions
+        # of k and facts assumed meanwhile are generalised over k (PathCtx.enter_generic).
+        k = SI(z3.Int(ctx._name("k!comp")))
         if cond is None:
-            elt(seq.get(k))
-        else:
-            cv = cond(seq.get(k))
-            ctx.assume(cv)
-            elt(seq.get(k))
-        # retract the generic-index assumptions (obligations recorded meanwhile keep their own hyps copy)
-        del ctx.hyps[mark:]
-        ctx.solver.pop()
-        if cond is None:
-            def get(q, elt=elt, seq=seq, ctx=ctx):
-                ctx.quiet += 1
-                try:
-                    return elt(seq.get(q))
-                finally:
-                    ctx.quiet -= 1
-            return SSeq(n, get)
-        # filter comprehension: result[m] = elt(seq[sel[m]]) with sel the increasing list of all k with cond
-        def pred(q, cond=cond, seq=seq, ctx=ctx):
-            return cond(seq.get(q))
-        sel = npstub.filtered_indices(n, pred)
-
-        def get(q, elt=elt, seq=seq, sel=sel, ctx=ctx):
-            ctx.quiet += 1
+            tok = ctx.enter_generic(k, sand(0 <= k, k < n))
             try:
-                return elt(seq.get(sel.row(q)))
+                val = elt(seq.get(k))
             finally:
-                ctx.quiet -= 1
-        r = SSeq(sel.shape[0], get)
+                ctx.exit_generic(tok)
+            return SSeq(n, lambda q, val=val, k=k: sym.subst_val(val, k, q))
+        tok = ctx.enter_generic(k, sand(0 <= k, k < n))
+        try:
+            cv = cond(seq.get(k))
+            cv = _b_bool(cv) if not isinstance(cv, (bool, SB)) else cv
+        finally:
+            ctx.exit_generic(tok)
+        tok = ctx.enter_generic(k, sand(0 <= k, k < n, cv))
+        try:
+            val = elt(seq.get(k))
+        finally:
+            ctx.exit_generic(tok)
+        # filter comprehension: result[m] = elt(seq[sel[m]]) with sel the increasing list of all k with cond
+        sel = npstub.filtered_indices(n, lambda q, cv=cv, k=k: sym.subst_val(cv, k, q))
+        r = SSeq(sel.shape[0], lambda q, val=val, k=k, sel=sel: sym.subst_val(val, k, sel.row(q)))
         r.filter_of = (seq, sel)
         return r
 
@@ -392,7 +382,11 @@ class SymPackage(types.ModuleType):
     def __getattr__(self, a):
         if a.startswith("__"):
             raise AttributeError(a)
-        return self.__dict__["_loader"].load(self.__name__ + "." + a)
+        try:
+            return self.__dict__["_loader"].load(self.__name__ + "." + a)
+        except ImportError:
+            real = importlib.import_module(self.__name__)
+            return getattr(real, a)
 
 
 class _Scipy(types.ModuleType):
@@ -445,7 +439,9 @@ class Loader:
                 return importlib.import_module(name) if fromlist else importlib.import_module("evo")
             if fromlist:
                 return self.load(name)
-            return self.load("evo")
+            if "evo!pkg" not in self.modules:
+                self.modules["evo!pkg"] = SymPackage(self, "evo")
+            return self.modules["evo!pkg"]
         return _bi.__import__(name, globals, locals, fromlist, level)
 
     def _path(self, modname):
